@@ -155,6 +155,7 @@ def brute(rng, tier):
         # voxel_filter
         vox = [float(rng.choice([0.5, 1.0, 3.0])) for _ in range(min(d, 3))]
         vd = len(vox)
+        voxfn = pp.voxel_filter
         o = pp.voxel_filter(pts, vox)
         evals += 1
         minp = pts[:, :vd].min(0).values
@@ -171,6 +172,20 @@ def brute(rng, tier):
             ks = ((orand[:, :vd] - minp) / torch.tensor(vox, dtype=torch.float64)).to(torch.int64)
             ok = len({tuple(x.tolist()) for x in ks}) == len(uniq)
         if not ok: fails.append(dict(clause='voxel_filter_random_member_per_voxel', signature=f'n={n},vox={vox}'))
+        # voxel_filter on grid-aligned clouds (integer lattice, integer voxel sizes): a point whose offset from the minimum is an exact
+        # multiple of the voxel size belongs to the voxel that starts there - exact integer reference (p - min) // v, both dtypes
+        for ldt in (torch.float32, torch.float64):
+            vsz = [rng.choice([1, 2, 3, 7, 10, 41, 47, 49, 55, 61]) for _ in range(min(d, 3))]
+            lat = torch.randint(-200, 200, (n, d + fch), generator=g)
+            lpts = lat.to(ldt)
+            lv = len(vsz)
+            lo = voxfn(lpts, [float(v) for v in vsz]); evals += 1
+            kint = (lat[:, :lv] - lat[:, :lv].min(0).values) // torch.tensor(vsz)
+            groups = {}
+            for i in range(n): groups.setdefault(tuple(kint[i].tolist()), []).append(i)
+            lc = torch.stack([lpts[v].double().mean(0) for _, v in sorted(groups.items())])
+            if lo.shape != lc.shape or not torch.allclose(torch.sort(lo.double(), 0).values, torch.sort(lc, 0).values, atol=1e-3 if ldt == torch.float32 else 1e-9):
+                fails.append(dict(clause='voxel_filter_lattice_points', signature=f'{str(ldt).split(".")[-1]}/vox={vsz}', n=n, voxels_returned=int(lo.shape[0]), voxels_expected=len(groups)))
         # random_filter
         num = rng.randrange(0, n + 1)
         rf = pp.random_filter(pts, num)
